@@ -51,7 +51,10 @@ def cond_dict(level, c):
     if t == "applied":
         return {"type": "processing_item_applied", "processing_item_id": uncps(c["s"])}
     if t == "state":
-        return {"type": "processing_state", "key": uncps(c["k"]), "val": uncps(c["v"])}
+        d = {"type": "processing_state", "key": uncps(c["k"]), "val": c["n"] if c["num"] else uncps(c["v"])}
+        if c["op"] != "eq":
+            d["op"] = c["op"]
+        return d
     raise ValueError(f"unknown condition {level} {c}")
 
 
@@ -98,6 +101,8 @@ def pipeline_dict(G, nest=False):
              "field_name_conditions": [{"type": "include_fields", "fields": ["fieldK1"]}]},
             # a state variable whose value is falsy in Python: set all the same
             {"id": "st0", "type": "set_state", "key": "z", "val": ""},
+            # a number
+            {"id": "stn", "type": "set_state", "key": "n", "val": 5},
         ] + ([{"id": "wrap", "type": "nest", "items": [rulemark, marker]}] if nest else [rulemark, marker]),
     }
 
@@ -115,7 +120,7 @@ def pp_pipeline_dict(G, pp):
     mark = {"id": "pmark", "type": "embed", "prefix": "M(", "suffix": ")"}
     mark.update(group_keys("rule", G["rule"], "rule"))
     d["postprocessing"] = ([dict(PP_FIRST[pp], id="first")] if pp != "none" else []) + [mark]
-    d["transformations"] = d["transformations"][:5]
+    d["transformations"] = d["transformations"][:6]
     return d
 
 
@@ -164,7 +169,7 @@ def run(tier: str, seed: int) -> int:
     from .. import corrupt as _corrupt
 
     chk.binding_selftest("Judge_C13", obs, verdicts, _corrupt.c13)
-    by_id = {o["id"]: {"marker_item": dict(pipeline_dict(o["G"])["transformations"][6], inside_nest=bool(o.get("nest"))), "observed": o["ret"]["out"] if o["ret"]["ok"] else o["ret"]["exc"] + ": " + uncps(o["ret"]["msg"])} for o in obs}
+    by_id = {o["id"]: {"marker_item": dict(pipeline_dict(o["G"])["transformations"][7], inside_nest=bool(o.get("nest"))), "observed": o["ret"]["out"] if o["ret"]["ok"] else o["ret"]["exc"] + ": " + uncps(o["ret"]["msg"])} for o in obs}
     chk.absorb(verdicts, by_id, {c["id"]: c for c in cases})
     nontrivial = sum(1 for c in cases if sum(len(c["G"][k]["conds"]) for k in ("rule", "item", "field")) >= 1)
     samples = [by_id[o["id"]] for o in obs[:: max(1, len(obs) // 4)]][:4]
